@@ -850,11 +850,13 @@ impl<const N: usize> Not for BigInt<N> {
 /// assert_eq!(res, -2i64);
 /// ```
 pub fn signed_mod_reduction(n: u64, modulus: u64) -> i64 {
-    let t = (n % modulus) as i64;
-    if t as u64 >= (modulus / 2) {
-        t - (modulus as i64)
+    let t = n % modulus;
+    if t >= (modulus / 2) {
+        // `modulus - t` is at most `modulus / 2` rounded up, so it fits an `i64` even for
+        // `modulus = 1 << 63`, where `modulus as i64` does not.
+        -((modulus - t) as i64)
     } else {
-        t
+        t as i64
     }
 }
 
